@@ -371,6 +371,10 @@ Ltac hex_cases c :=
   let E := fresh "E" in
   destruct (from_hex c) as [?x|] eqn:E;
   [ apply from_hex_some in E; destruct E as [[? ?]|[[? ?]|[? ?]]]; subst | apply from_hex_none in E; destruct E as (? & ? & ?) ].
+(* the parity test of the length, whatever its form: len % 2, len & 1 *)
+Lemma land1 x : Z.land x 1 = x mod 2.
+Proof. change 1 with (Z.ones 1). rewrite Z.land_ones by lia. reflexivity. Qed.
+Ltac parity_norm := rewrite ?land1; rewrite ?Z.rem_mod_nonneg by (unfold zlen; lia).
 (* index reads of src at 2k / 2k+1, whatever the index expression looks like *)
 Ltac reads src k :=
   repeat match goal with |- context [m_get src ?e] =>
@@ -400,11 +404,11 @@ Ltac dec_shape pk c b p after fuel dst src :=
        iter1 c b p (pk d (Z.of_nat k) (Z.of_nat (2 * k + 1))) = Ret (inr (inl (pk d (Z.of_nat k) (Z.of_nat (2 * k + 1))))));
     [ let k := fresh "k" in intros k ? ?; iter_open; dec_ev src k; reflexivity
     | assert (H3 : forall k d, length src = (2 * k)%nat -> after (inl (pk d (Z.of_nat k) (Z.of_nat (2 * k + 1)))) = Ret (d, (Z.of_nat k, 0)));
-      [ let k := fresh "k" in intros k ? ?; cbv beta iota; rewrite ?Z.rem_mod_nonneg by (unfold zlen; lia); dec_ev src k; reflexivity
+      [ let k := fresh "k" in intros k ? ?; cbv beta iota; parity_norm; dec_ev src k; reflexivity
       | assert (H4 : forall k d, length src = (2 * k + 1)%nat ->
            after (inl (pk d (Z.of_nat k) (Z.of_nat (2 * k + 1)))) =
            Ret (d, (Z.of_nat k, match from_hex (nth (2 * k) src 0) with None => errk_InvalidByte (nth (2 * k) src 0) | Some _ => errk_ErrLength end)));
-        [ let k := fresh "k" in intros k d Hk; cbv beta iota; unfold errk_InvalidByte, errk_ErrLength; rewrite ?Z.rem_mod_nonneg by (unfold zlen; lia);
+        [ let k := fresh "k" in intros k d Hk; cbv beta iota; unfold errk_InvalidByte, errk_ErrLength; parity_norm;
           dec_ev src k; hex_cases (nth (2 * k) src 0); dec_ev src k; reflexivity
         | assert (H5 : forall v, after (inr v) = Ret v) by (intros; reflexivity);
           let E := fresh "E" in
